@@ -36,7 +36,7 @@ SomeSpellings == {
   <<"dangling.slice">>, <<"missing.slice">>, <<"bad.slice">>, <<"ld", "x.slice">>, <<"g">>, <<"ROOT", "a.slice">>, <<"pkg.slice">>
 }
 \* few spellings, longer lists: a file named twice with another argument in between, in either list
-DupSpellings == { <<"a.slice">>, <<"d", "..", "a.slice">>, <<"b.slice">>, <<"d">>, <<"d", "x.slice">> }
+DupSpellings == { <<"a.slice">>, <<"d", "..", "a.slice">>, <<"b.slice">>, <<"d">> }
 Spellings == CASE SpellingSet = "all" -> AllSpellings [] SpellingSet = "dup" -> DupSpellings [] OTHER -> SomeSpellings
 
 VARIABLES sources, refs
